@@ -329,6 +329,17 @@ def check_property(prop, tier="quick", seed=0, jobs=None, only=None, write_evide
                 undecided.append((oid, clause, detail))
                 continue
             violations.append((oid, clause, detail, wit))
+    # ---- Lean-checked lemma library (only when a lemma of it was used)
+    lean = None
+    if any(l.startswith("GtvLemmas") for l in lemmas):
+        from . import leancheck
+        lean = leancheck.status(force=(tier == "thorough" and os.environ.get("GTV_LEAN_FORCE") == "1"))
+        missing = sorted(l.split(".", 1)[1] for l in lemmas if l.startswith("GtvLemmas.") and l.split(".", 1)[1] not in lean["theorems"])
+        if missing:
+            lean["ok"] = False
+            lean["detail"] = f"lemmas used by the obligations but not proved in lean/GtvLemmas.lean: {missing}"
+        if not lean["ok"]:
+            crashes.append(("lean/GtvLemmas.lean", "Lean lemma library does not check: " + lean["detail"]))
     # ---- report
     rc = EXIT_OK
     os.makedirs(os.path.join(VERIF, "replays", prop), exist_ok=True)
@@ -396,6 +407,8 @@ def check_property(prop, tier="quick", seed=0, jobs=None, only=None, write_evide
                 bounded_items=bounded,
                 axioms_used=sorted(axioms),
                 lemmas_used=sorted(lemmas),
+                lean_library=(dict(ok=lean["ok"], wall_s=round(lean["wall_s"], 2), sha256=lean["sha"], cached_result=lean["cached"],
+                                   theorems=lean["theorems"]) if lean else None),
                 known_findings=sorted(set(k.get("id") for k, _, _ in known_hits)),
                 source_sha256=X.source_hashes(),
                 exhaustive=False,
